@@ -84,6 +84,8 @@ func corrRofs(seed uint64, tier string, replay []string) *lib.Result {
 				fmt.Sprintf("openfile %s 1 0", hx(p)), fmt.Sprintf("openfile %s 2 0", hx(p)), fmt.Sprintf("openfile %s 1024 0", hx(p)), fmt.Sprintf("openfile %s 512 0", hx(p)),
 				fmt.Sprintf("openfile %s 64 420", hx(p)), fmt.Sprintf("openfile %s 1052672 0", hx(p)))
 		}
+		// Sub of something that is not there / not a directory: an error, not a view (and not a panic)
+		noop = append(noop, "sub "+hx("/missing"), "sub "+hx("/a/f"), "sub "+hx("/a/missing/deeper"))
 		// through read-only handles of a file and of a directory
 		for _, p := range []string{"/a/f", "/a/b"} {
 			o := w.call("fs 0 openfile " + hx(p) + " 0 0")
@@ -119,6 +121,10 @@ func corrRofs(seed uint64, tier string, replay []string) *lib.Result {
 				bad = "the underlying file system changed"
 			case f[2] == "openfile" && (f[4] == "0" || f[4] == "1052672"):
 				// O_RDONLY (with O_CLOEXEC-like extra bits or not) is a read-only open
+			case f[2] == "sub":
+				if !strings.HasPrefix(rw, "err ") {
+					bad = "Sub of a missing name or of a file returned a view"
+				}
 			case !permClass(rw) && rw != "err invalid" && rw != "err closed":
 				bad = "a mutating call whose arguments ask for no change did not fail with a permission-class error"
 			}
